@@ -271,7 +271,7 @@ LATER_RULES = {
     "C03": "R03f Sequence.match buffers every Conditional/Indent element unconditionally (meta arms first, straight-line, continue). R03d a node's position is the hull of all its children; R03e buffered metas are emitted in grammar order.",
     "C04": "R04f no next() without default / R04g no mis-sized split unpacking outside the rule packages; R04h a variant's tree is known to exist where it is linted. R04i the python templater slices a string only after rendering accepted it.",
     "C05": "R05d flag forwarding in recursive walks; R05e constant subscripts guarded; R05f no whitespace segment from an empty text; R05g every assert discharged, typing-only or reviewed; R05h no fix with an empty edit. R05i rules that read their memory hand it back; R05j no create fix re-creates an unfiltered span of siblings (metas have no raw).",
-    "C07": "R07d per-variant working state; R07e left-strip handling for every opening token; R07f field token rebuilt in format-grammar order; R07g override delta measured on the rendered text; R07h adjusted slices carry the running delta.",
+    "C07": "R07i the tracer measures a section's rendered length on the untransformed tail of the trace part; R07d per-variant working state; R07e left-strip handling for every opening token; R07f field token rebuilt in format-grammar order; R07g override delta measured on the rendered text; R07h adjusted slices carry the running delta.",
     "C08": "R08a also: environment policies stay at Jinja's defaults; R08d stand-ins never win over the user's context (bulk merges included). R08e ignore_templating is decided by membership of 'templating' in the ignore list.",
     "C09": "R09g overlapping occurrences counted; R09h context layered default < config < override; R09i a matched placeholder is a templated slice. R09j infer_type results.",
     "C10": "R10e scan bounds; R10f every templated slice is a conflict; R10g break safety by literalness only; R10h JJ01 tag surgery; R10i end of file is the end of the last raw slice. R10j JJ01 rebuilds a tag from its own five parts in order. R10f also: only create fixes may ask that ALL slices be templated.",
